@@ -58,7 +58,7 @@ class Contract:
         self.mandatory_args = [
             name
             for name, param in signature.parameters.items()
-            if param.default == inspect.Parameter.empty
+            if param.default is inspect.Parameter.empty
         ]
 
         self.description = description
